@@ -1,6 +1,7 @@
 package main
 
 import (
+	"os"
 	"fmt"
 	"go/constant"
 	"go/token"
@@ -114,10 +115,8 @@ func (u *Unit) oblige(st *State, kind, desc string, pos token.Pos, goal Term, ta
 		}
 		u.counters[kind+tag]++
 	}
+	goal = u.skolemizeGoal(goal)
 	g := Implies(st.G, goal)
-	if g.S == "true" {
-		// trivially discharged by construction; still recorded
-	}
 	u.obls = append(u.obls, &Obligation{Name: name, Kind: kind, Func: u.unitName(), Desc: desc, Pos: u.posOf(pos), Goal: g, Prefix: len(u.ctx.asserts), Tag: tag})
 }
 
@@ -1174,4 +1173,58 @@ func (u *Unit) execNext(st *State, x *ssa.Next) Value {
 func isEmptyStruct(t types.Type) bool {
 	s, ok := t.Underlying().(*types.Struct)
 	return ok && s.NumFields() == 0
+}
+
+// skolemizeGoal: a goal of the form (forall (vars) B) is proved as B[vars := fresh constants] (equivalent for validity),
+// and every universal quantifier Q built from a specification so far is instantiated at those constants by the
+// tautology Q => Q-body[v := c] placed in front of the goal. Index-quantified facts over slices have no usable
+// E-matching pattern (the element address is (ea arr (+ off j))), so without this the proof depends on what MBQI
+// happens to try - such obligations were discharged for one solver seed and timed out for the others.
+func (u *Unit) skolemizeGoal(goal Term) Term {
+	if os.Getenv("GOVC_NOSKOLEM") != "" {
+		return goal
+	}
+	vars, body, ok := splitForall(goal.S)
+	if !ok {
+		return goal
+	}
+	var consts [][2]string
+	for _, v := range vars {
+		u.ctx.freshN++
+		name := fmt.Sprintf("sk_%s!%d", strings.ReplaceAll(v[0], "!", "_"), u.ctx.freshN)
+		c := u.ctx.Const(name, v[1])
+		body = substSym(body, v[0], c.S)
+		consts = append(consts, [2]string{c.S, v[1]})
+	}
+	var insts []Term
+	seen := map[string]bool{}
+	for _, q := range u.ctx.qrecs {
+		if q.full == goal.S || len(insts) >= 60 {
+			continue
+		}
+		for vi, v := range q.vars {
+			for _, c := range consts {
+				if c[1] != v[1] || (v[1] != SInt && v[1] != SStr) {
+					continue
+				}
+				b := substSym(q.body, v[0], c[0])
+				var rest []string
+				for k, o := range q.vars {
+					if k != vi {
+						rest = append(rest, fmt.Sprintf("(%s %s)", o[0], o[1]))
+					}
+				}
+				inst := b
+				if len(rest) > 0 {
+					inst = fmt.Sprintf("(forall (%s) %s)", strings.Join(rest, " "), b)
+				}
+				t := fmt.Sprintf("(=> %s %s)", q.full, inst)
+				if !seen[t] {
+					seen[t] = true
+					insts = append(insts, Term{t, SBool})
+				}
+			}
+		}
+	}
+	return Implies(And(insts...), Term{body, SBool})
 }
